@@ -256,8 +256,9 @@ func (c *Client) connect() error {
 			for {
 				val, err := stanza.NextPacket(c.transport.GetDecoder())
 				if err != nil {
-					c.ErrorHandler(err)
-					c.disconnected(state)
+					// The failure is reported through the error returned by connect. No session
+					// was established, so there is no disconnection to announce: a Disconnected
+					// event here made the StreamManager start a second, concurrent retry loop.
 					return
 				}
 				switch val.(type) {
